@@ -1,5 +1,5 @@
 """Seeded generation for scenario B: bit-level related key pools and histories."""
-from .core import hx
+from .core import deep, hx
 
 ALPHABETS = [
     [0x00, 0x01],
@@ -12,7 +12,7 @@ ALPHABETS = [
 
 
 def make_pool(rng, size=None):
-    size = size or rng.choice([2, 3, 4, 5, 6, 8, 10, 12, 16, 24])
+    size = size or rng.choice(deep([2, 3, 4, 5, 6, 8, 10, 12, 16, 24], [2, 3, 4, 6, 8, 12, 16, 24, 40, 64]))
     style = rng.choice(["fixed1", "fixed2", "fixed4", "fixed32", "var", "var", "var"])
     alpha = rng.choice(ALPHABETS)
 
@@ -96,6 +96,7 @@ class BHistory:
         r = rng
         self.w = {"set": r.choice([3, 5, 8]), "del": r.choice([1, 2, 4]), "sete": r.choice([0, 1, 2]), "sub": r.choice([0, 1, 2]), "reopen": r.choice([0, 0, 1])}
         self.via_dict = r.random() < 0.5
+        self.p_hashval = r.choice([0.0, 0.0, 0.1, 0.3])
 
     def via(self):
         return "d" if self.via_dict and self.rng.random() < 0.6 else "m"
@@ -120,7 +121,10 @@ class BHistory:
         if kind == "set":
             v = rng.choice(self.values)
             present[k] = v
-            return {"op": "set", "k": hx(k), "v": hx(v), "via": self.via()}
+            c = {"op": "set", "k": hx(k), "v": hx(v), "via": self.via()}
+            if rng.random() < self.p_hashval:
+                c["vh"] = rng.randrange(1000)
+            return c
         present.pop(k, None)
         return {"op": kind, "k": hx(k), "via": self.via()}
 
